@@ -169,6 +169,7 @@ fn main() {
     if std::env::var("VERIF_PANIC_VERBOSE").is_err() {
         std::panic::set_hook(Box::new(|_| {}));
     }
+    contain();
     let a = Args::new();
     match a.v.get(1).map(|s| s.as_str()) {
         Some("decode-gen") => decode_gen(&a),
